@@ -24,7 +24,11 @@ Hdr == Rec[1]
 TrKeys == 1..Hdr.nk
 TrIds == 1..Hdr.ni
 TrBuckets == 0..Hdr.maxb
-TrMaxVersion == Hdr.maxgen + 1
+TrMaxVersion == Hdr.maxgen + 2
+\* a pre-manifest (legacy) bucket object has generation 0 in the code; 0 means "not in the manifest" here, so
+\* legacy objects live in the top generation slot
+Leg == TrMaxVersion
+G(g) == IF g = 0 THEN Leg ELSE g
 
 VARIABLES l, dup
 tvars == <<mvars, l, dup>>
@@ -37,7 +41,7 @@ ObsPost(st) == [k \in Keys |-> SeqToSet(st.post[k])]
 ObsHome(st) == [k \in Keys |-> st.home[k]]
 ObsDirty(st) == SeqToSet(st.dirty)
 ManOf(m) == [b \in Buckets |-> IF \E j \in 1..Len(m) : m[j][1] = b
-                               THEN m[CHOOSE j \in 1..Len(m) : m[j][1] = b][2] ELSE 0]
+                               THEN G(m[CHOOSE j \in 1..Len(m) : m[j][1] = b][2]) ELSE 0]
 \* every key with a posting is listed by the bucket that owns it (a flush serializes listed keys only)
 OwnerLists(st) ==
   \A k \in Keys : st.post[k] # <<>> =>
@@ -125,11 +129,11 @@ TrCommit ==
 TrFret ==
   /\ IsEv("fret")
   /\ Publish
-  /\ {<<Ev.obsolete[j][1], Ev.obsolete[j][2]>> : j \in 1..Len(Ev.obsolete)} = fl.obsolete
+  /\ {<<Ev.obsolete[j][1], G(Ev.obsolete[j][2])>> : j \in 1..Len(Ev.obsolete)} = fl.obsolete
   /\ dirty' = ObsDirty(Ev.st) /\ ManOf(Ev.st.man) = mMan' /\ Ev.st.ver = version
   /\ UNCHANGED dup
 
-TrDelete == IsEv("delete") /\ DeleteObsolete(<<Ev.b, Ev.g>>) /\ UNCHANGED dup
+TrDelete == IsEv("delete") /\ DeleteObsolete(<<Ev.b, G(Ev.g)>>) /\ UNCHANGED dup
 TrFend == IsEv("fend") /\ FlushEnd /\ UNCHANGED dup
 \* Ok(saved = false): nothing was dirty and no metadata was pending
 TrFnoop == IsEv("fnoop") /\ fl.st = "idle" /\ dirty = {} /\ version = saved /\ UNCHANGED <<mvars, dup>>
@@ -159,9 +163,21 @@ TrCrash ==
   /\ fl' = NoFlush
   /\ UNCHANGED <<obj, dMan, dVer, committed, dup>>
 
+\* the durable state is rewritten as a pre-manifest release left it (un-suffixed bucket objects, metadata without a
+\* manifest) and the index restarts from it: same content; the in-memory manifest records the legacy objects
+TrLegacy ==
+  /\ IsEv("legacy") /\ fl.st = "idle"
+  /\ obj' = [p \in Buckets \X Gens |-> IF p[2] = Leg /\ dMan[p[1]] # 0 THEN obj[<<p[1], dMan[p[1]]>>] ELSE Absent]
+  /\ dMan' = [b \in Buckets |-> IF dMan[b] # 0 THEN Leg ELSE 0]
+  /\ mMan' = dMan' /\ ManOf(Ev.st.man) = dMan'
+  /\ post' = Loaded /\ ObsPost(Ev.st) = Loaded
+  /\ home' = ObsHome(Ev.st) /\ dirty' = ObsDirty(Ev.st) /\ OwnerLists(Ev.st)
+  /\ version' = dVer /\ saved' = dVer /\ Ev.st.ver = dVer
+  /\ UNCHANGED <<fl, dVer, committed, dup>>
+
 TraceInit == Init /\ l = 2 /\ dup = TRUE
 TraceNext == TrReset \/ TrOp \/ TrSnap \/ TrWrite \/ TrCommit \/ TrFret \/ TrDelete \/ TrFend
-             \/ TrFnoop \/ TrFfail \/ TrLoad \/ TrCrash
+             \/ TrFnoop \/ TrFfail \/ TrLoad \/ TrCrash \/ TrLegacy
 TraceSpec == TraceInit /\ [][TraceNext]_tvars
 
 TraceAccepted ==
